@@ -1395,7 +1395,9 @@ func (p *parser) optionalIdentifier(name string) bool {
 }
 
 func decodeString(s string) <-chan rune {
-	c := make(chan rune)
+	// The channel is large enough for all runes of s, so that the goroutine
+	// below terminates even if the receiver stops early (after an error).
+	c := make(chan rune, len(s))
 	go func() {
 		s := s[1 : len(s)-1]
 		escape := false
